@@ -272,7 +272,14 @@ func crashCase(env *core.Env, idx int, prop, bias string) *core.CaseResult {
 	}
 	path := fmt.Sprintf("%s/img_%d", env.TmpDir, idx)
 	memKB := p.MemKB
+	if p.BigTxnRows > 0 && idx%16 == 6 {
+		// half of the oversized-transaction histories are recovered in a pool of 32 frames: redo and undo touch several
+		// hundred pages, so recovered pages are evicted (written or dropped) and read back while recovery is still running
+		memKB = 128
+		res.Add("histories_recovered_in_a_pool_much_smaller_than_the_recovery_working_set", 1)
+	}
 	hdesc := describeHistory(h)
+	hdesc["recovery_pool_KB"] = memKB
 	nPoint := 0
 	hung := false
 	check := func(k int, img *rec.Image, tear string, last string) {
